@@ -105,15 +105,6 @@ def get_next_linebox(context, linebox, position_y, bottom_space, skip_stack,
         remove_last_whitespace(context, line)
         linebox.width = line.width
 
-        new_position_x, _, new_available_width = avoid_collisions(
-            context, linebox, containing_block, outer=False)
-        offset_x = text_align(
-            context, line, new_available_width,
-            last=(resume_at is None or preserved_line_break))
-        if containing_block.style['direction'] == 'rtl':
-            offset_x *= -1
-            offset_x -= line.width
-
         bottom, top = line_box_verticality(line)
         assert top is not None
         assert bottom is not None
@@ -124,13 +115,25 @@ def get_next_linebox(context, linebox, position_y, bottom_space, skip_stack,
         line.margin_top = 0
         line.margin_bottom = 0
 
-        # Floats have already been placed horizontally, move the text only
-        line.translate(offset_x, 0, ignore_floats=True)
         line.translate(0, offset_y)
         # Avoid floating point errors, as position_y - top + top != position_y
         # Removing this line breaks the position == linebox.position test below
         # See https://github.com/Kozea/WeasyPrint/issues/583
         line.position_y = position_y
+
+        # Floats next to any part of the line box shorten it
+        linebox.height = line.height
+        new_position_x, _, new_available_width = avoid_collisions(
+            context, linebox, containing_block, outer=False)
+        offset_x = text_align(
+            context, line, new_available_width,
+            last=(resume_at is None or preserved_line_break))
+        if containing_block.style['direction'] == 'rtl':
+            offset_x *= -1
+            offset_x -= line.width
+
+        # Floats have already been placed horizontally, move the text only
+        line.translate(offset_x, 0, ignore_floats=True)
 
         if line.height <= candidate_height:
             break
